@@ -225,12 +225,13 @@ def c08(q):
         "level": "exploration",
         "rule": ("as C07 over a bounded in-memory async duplex (capacity 1..1000) driven by a manual executor: the schedule (which task is polled next) and the placement of injected, self-waking Poll::Pending "
                  "results in poll_write / poll_read / poll_flush are part of the case; half of the cases run wake-driven (a task is polled only after its waker fired: a stall with an incomplete stream is a lost wake-up). "
-                 "'compose' sub-workload: every chunk composition of small streams. Additional oracle: polls bounded, a Ready poll_flush follows the last accepted byte of every completed send. "
+                 "'compose' sub-workload: every chunk composition of small streams. 'sched' sub-workload: for tiny configurations (1-2 messages, capacity 1-3) EVERY schedule prefix of 10 polls x 8 Pending patterns. Additional oracle: polls bounded, a Ready poll_flush follows the last accepted byte of every completed send. "
                  "Distinct = distinct (shape, chunk scripts, capacity, schedule, Pending script)."),
-        "gates": ["mode:async", "compose-cases", "injected-pendings", "flush-checked-sends", "messages-received"],
+        "gates": ["mode:async", "compose-cases", "sched-cases", "injected-pendings", "flush-checked-sends", "messages-received"],
         "jobs": [
             {"sub": "random", "cfgs": ["debug", "release"], "cases": 25_000 if q else 600_000, "ms": 30_000 if q else 300_000},
             {"sub": "compose", "cfgs": ["debug"], "cases": 30_000 if q else 600_000, "ms": 30_000 if q else 300_000},
+            {"sub": "sched", "cfgs": ["debug"], "cases": 40_000 if q else 800_000, "ms": 30_000 if q else 300_000},
             {"sub": "random", "cfgs": ["miri"], "cases": 100 if q else 4_000, "ms": 40_000 if q else 600_000, "wall": 300 if q else 1500},
         ],
     }
